@@ -41,7 +41,7 @@ def mv(a, v):
 def run(index: RepoIndex, rep) -> None:
     rep.rule('C18.R9', 'outside the rotation operators, geometry keeps row and column quantities apart (axis typing, E14)', floor=1)
     from ..axes import axis_rule
-    axis_rule(index, rep, 'C18.R9', ('gym_gridverse/geometry.py',), floor=25)
+    axis_rule(index, rep, 'C18.R9', ('gym_gridverse/geometry.py',), floor=12)
     rep.rule('C18.R8', 'geometry operators and grid rotations are pure functions of their '
              'operands (no in-place update, no cache)', floor=15)
     purity(index, rep)
